@@ -50,6 +50,8 @@ CLAIMS = {
          "fixture content rather than arbitrary group content; sentinel detection is textual; JWT administrator tokens covered by C09 at library level"),
  "C18": ("model_checking", "Defs.tla (handler part: stat + checkPreconditions without lock; library part under groups.mu: re-read, compare, CreateTemp, encode+fsync, rename; lock-free readers; crash anywhere) is checked exhaustively for 3 editors up to 4 versions against X1/X1b/X3, the faithful switch re-finding the repaired F21; seeded optimistic-concurrency sequences (every If-Match/If-None-Match form with current and stale tags on groups, users, passwords, keys, wildcard user; 2-6 racing writers with one tag) and a crash at each of the five steps of rewriteDescriptionFile run against the real server, Trace_Http deciding from the observed (size, mtime) versions alone.",
          "racing writers are scheduled by the runtime, not a controlled scheduler; process crashes only"),
+ "C19": ("model_checking", "Paths.tla (path.Clean, validGroupName, validUsername, parseGroupName, getDescriptionFile's file name, the recordings delete target as operators over component sequences, against the property's closed form and 'resolution never climbs above the root') is checked by TLC on every name of up to 3 components over 7 component kinds, the faithful switch re-finding the repaired F22; the real validators, parser, description functions and openDiskFile run on every table row, hand-written escapes and seeded hostile strings inside a scratch tree with sentinels next to the configured directories (tree compared before/after every call), and raw HTTP traversal attempts on the static, group, API, recordings and delete-form routes plus websocket joins under bad names run against the real server with every directory digested after every request; Trace_Paths judges.",
+         "Linux separator semantics; no symbolic links planted; recorder file names judged at openDiskFile"),
 }
 REASON_DEFAULT = "check under construction (not yet registered); see DESIGN.md section 5"
 NA = {}
